@@ -12,6 +12,7 @@ pub struct Flags {
     pub clone: bool,
     pub serde: bool,
     pub reserve_items: bool,
+    pub reserve_forms: usize,
     pub heap: bool,
     pub reserve_regions: bool,
     pub idx_usize: bool,
@@ -44,6 +45,7 @@ fn flags<E: Entry>() -> Flags {
         clone: E::can_clone(),
         serde: E::can_serde(),
         reserve_items: E::can_reserve_items(),
+        reserve_forms: E::reserve_form_count(),
         heap: E::can_heap(),
         reserve_regions: E::can_reserve_regions(),
         idx_usize: E::idx_is_usize(),
